@@ -17,6 +17,7 @@ func registerMore(m map[string]propSpec) {
 		{Harness: "faults", Overlay: "base", Name: "answers"},
 		{Harness: "faults", Overlay: "base", Name: "cuts", Shards: 2},
 		{Harness: "regrace", Overlay: "base", Name: "regrace", Race: true},
+		{Harness: "reg", Overlay: "base", Name: "hist", Shards: 4},
 	}}
 	m["C08"] = propSpec{Level: "model_checking", Engines: []engine{
 		{Harness: "reg", Overlay: "base", Name: "sched", Shards: 8},
@@ -29,6 +30,7 @@ func registerMore(m map[string]propSpec) {
 		{Harness: "adapt", Overlay: "base", Name: "sched", Shards: 8},
 		{Harness: "adapt", Overlay: "base", Name: "race", Race: true},
 		{Harness: "unsol", Overlay: "base", Name: "content"},
+		{Harness: "unsol", Overlay: "base", Name: "abandon", Shards: 3},
 	}}
 	m["C17"] = propSpec{Level: "fault_enumeration", Engines: []engine{
 		{Harness: "reg", Overlay: "base", Name: "names", Shards: 8},
@@ -39,12 +41,14 @@ func registerMore(m map[string]propSpec) {
 	m["C16"] = propSpec{Level: "fault_enumeration", Engines: []engine{
 		{Harness: "stublife", Overlay: "base", Name: "cuts", Shards: 8},
 		{Harness: "stublife", Overlay: "base", Name: "histories", Shards: 8},
+		{Harness: "stublife", Overlay: "base", Name: "slowcfg", Shards: 4},
 	}}
 	m["C18"] = propSpec{Level: "fault_enumeration", Engines: []engine{{Harness: "procs", Overlay: "base", Shards: 2}}}
 	m["C20"] = propSpec{Level: "model_checking", Engines: []engine{{Harness: "samples", Overlay: "base"}}}
 	m["C06"] = propSpec{Level: "model_checking", Engines: []engine{
 		{Harness: "adapt", Overlay: "base", Name: "masks"},
 		{Harness: "adapt", Overlay: "base", Name: "order"},
+		{Harness: "reg", Overlay: "base", Name: "hist", Shards: 4},
 		{Harness: "adapt", Overlay: "base", Name: "sched", Shards: 8},
 		{Harness: "adapt", Overlay: "base", Name: "race", Race: true},
 	}}
